@@ -233,20 +233,24 @@ def _is_returned(body, op):
 def _r4_6(ctx):
   """inscriptions are indexed from the first inscription height on, inclusive"""
   from ..core import where
-  from ..guards import conjuncts
+  from ..facts import describe_operand, CMP_FLIP
   from ..intervals import fmt_desc
-  ctx.rule('R4.6', 'Updater::index_utxo_entries: index_inscriptions = (self.height >= first_inscription_height()) && self.index.index_inscriptions — the block at exactly the first inscription height is inscription-indexed (no envelope of it is dropped)')
+  ctx.rule('R4.6', 'Updater::index_utxo_entries: the height test that switches inscription indexing on is self.height >= first_inscription_height() — the block at exactly the first inscription height is inscription-indexed (no envelope of it is dropped)')
   b = ctx.body('R4.6', 'ord::index::updater::Updater::index_utxo_entries')
   if b is None:
     return
-  ls = b.locals_named('index_inscriptions')
-  if not ctx.anchor('R4.6', 'local index_inscriptions', len(ls) == 1, b.n):
-    return
-  cj = conjuncts(b, {'c': {'l': ls[0]}}) or []
-  atoms = sorted(fmt_desc(a) for a, _ in cj)
-  want = sorted(['Ge(self.height,Settings::first_inscription_height(self.index.settings))', 'self.index.index_inscriptions'])
-  alt = sorted(['Le(Settings::first_inscription_height(self.index.settings),self.height)', 'self.index.index_inscriptions'])
-  ctx.ob('R4.6', b.n, 'index_inscriptions = height >= first_inscription_height() ∧ index.index_inscriptions', atoms in (want, alt), f'{atoms}', where(b, b.line))
+  atoms = []
+  for blk in b.blocks:
+    for s in blk['s']:
+      rv = s.get('rv', {})
+      if rv.get('k') == 'bin' and rv['op'] in CMP_FLIP:
+        a, c = fmt_desc(describe_operand(b, rv['a'])), fmt_desc(describe_operand(b, rv['b']))
+        if 'first_inscription_height' in a or 'first_inscription_height' in c:
+          atoms.append((rv['op'], a, c, s.get('l')))
+  ctx.ob('R4.6', b.n, 'exactly one comparison with first_inscription_height()', len(atoms) == 1, f'{atoms}', where(b, b.line), nontrivial=False)
+  for op, a, c, line in atoms:
+    ok = (op == 'Ge' and a == 'self.height' and 'first_inscription_height' in c) or (op == 'Le' and c == 'self.height' and 'first_inscription_height' in a)
+    ctx.ob('R4.6', b.n, 'inscription indexing starts at height >= first_inscription_height()', ok, f'{op}({a},{c})', where(b, line))
 
 
 # sensitivity pack (thorough tier): each seeded edit must be reported by the named rule instance
